@@ -164,6 +164,47 @@ theorem mass_balance_selfloop_witness :
 
 end
 
+/-! ### the reported equations: `canonical_ode_rhs` is a value-preserving regrouping -/
+
+section
+variable {κ : Type} [DecidableEq κ] {R : Type} [CommRing R]
+
+/-- `CompartmentalSystem.eqs` reports `canonical_ode_rhs((M·A+u)[i])`: the monomials of the expanded entry
+    regrouped by key (product of powers of amount functions).  For EVERY list of monomials (any keys: `1`,
+    `A`, `A**2`, `sqrt(A)`, `A*B`, …), every valuation of the keys and coefficients in any commutative ring,
+    the canonical form has the value of the original sum. -/
+theorem canonical_rhs_value (v : κ → R) (ms : List (κ × R)) :
+    evalMonomials v (collectBy ms) = evalMonomials v ms := by
+  unfold collectBy
+  rw [evalMonomials_foldl_collectAdd]
+  simp [evalMonomials]
+
+/-- so the reported equation has the value of the matrix entry it was computed from, whatever the
+    decomposition into monomials -/
+theorem canonical_eqs_value (v : κ → R) (ms : List (κ × R)) (entry : R) (h : evalMonomials v ms = entry) :
+    evalMonomials v (collectBy ms) = entry := by rw [canonical_rhs_value, h]
+
+omit [CommRing R] in
+/-- canonical: exactly one term per key … -/
+theorem canonical_rhs_one_term_per_key [Add R] (ms : List (κ × R)) : ((collectBy ms).map (·.1)).Nodup :=
+  (keys_foldl_collectAdd ms [] (by simp)).1
+
+omit [CommRing R] in
+/-- … and every key of the input is kept (none is dropped, power keys included) -/
+theorem canonical_rhs_keeps_every_key [Add R] (ms : List (κ × R)) (k : κ) :
+    k ∈ (collectBy ms).map (·.1) ↔ k ∈ ms.map (·.1) := by
+  have := (keys_foldl_collectAdd ms [] (by simp)).2 k
+  simpa [collectBy] using this
+
+/-- rebuilding the sum from a subset of the keys (e.g. only the plain amounts and `1`) is NOT value
+    preserving: keys 1 = `A`, 2 = `A**2` with `A = 2`; monomials `3·A + 5·A**2` -/
+theorem canonical_rhs_dropping_key_witness :
+    evalMonomials (fun k : Nat => (2 : Int) ^ k)
+        ((collectBy [(1, 3), (2, 5)]).filter (fun g => decide (g.1 ∈ [0, 1])))
+      ≠ evalMonomials (fun k : Nat => (2 : Int) ^ k) [(1, 3), (2, 5)] := by decide
+
+end
+
 /-! ### the equations of every buildable system -/
 
 section
